@@ -186,7 +186,7 @@ def check_case(case):
     if small:
         facts = GameFacts(game)
         try:
-            if facts.T > T_MAX:
+            if facts.too_slow:
                 v.inconclusive = "T>300"
                 return v
             pstar = facts.pstar
